@@ -78,6 +78,19 @@ def write_struct_ascii(value: Any) -> bytes:
     return write_struct_uvari(len(value_str)) + value_str.encode('ascii')
 
 
+def write_struct_ident(value: Any) -> bytes:
+    """Convert value to str, encode as ASCII, and represent as bytes: IDENT (and UNITS) representation.
+
+    The first byte is the number of characters (USHORT), so the text cannot be longer than 255 characters.
+    (For up to 127 characters this is the same as the ASCII representation, whose length prefix is a UVARI.)
+    """
+
+    value_str = str(value)
+    if len(value_str) > 255:
+        raise ValueError(f"Identifier cannot be longer than 255 characters; got {len(value_str)}: '{value_str[:20]}...'")
+    return RepresentationCode.USHORT.convert(len(value_str)) + value_str.encode('ascii')
+
+
 def write_struct_uvari(value: int) -> bytes:
     """Convert an integer to bytes. The format (USHORT/UNORM/ULONG) is chosen depending on the provided value."""
 
@@ -100,7 +113,7 @@ def write_struct_obname(value: "EFLRItem") -> bytes:
     try:
         origin_reference = write_struct_uvari(value.origin_reference)
         copy_number = RepresentationCode.USHORT.convert(value.copy_number)
-        name = write_struct_ascii(value.name)
+        name = write_struct_ident(value.name)
 
         obname = origin_reference + copy_number + name
 
@@ -129,7 +142,7 @@ def write_struct_status(value: int) -> bytes:
 _struct_dict = {
     RepresentationCode.ASCII: write_struct_ascii,
     RepresentationCode.UVARI: write_struct_uvari,
-    RepresentationCode.IDENT: write_struct_ascii,
+    RepresentationCode.IDENT: write_struct_ident,
     RepresentationCode.DTIME: write_struct_dtime,
     RepresentationCode.OBNAME: write_struct_obname,
     RepresentationCode.OBJREF: write_struct_objref,
